@@ -388,6 +388,47 @@ fn check_one<CS: BbsCiphersuite>(rep: &Report, ck: &str, c: &Case) -> CheckResul
     proof
         .blind_proof_verify(pk, hdr, phd, Some(l), Some(&dm), Some(&dcm), Some(&di), Some(&dci))
         .map_err(|e| harness_err("blind-proof-verify", format!("{:?}", e)))?;
+    // edits made IN PLACE in the caller's lists between two calls (same addresses, counts and lengths, other
+    // octets): first the honest call on these lists, then the same lists with one octet changed
+    {
+        let (mut ms, mut cs, mut ds, mut dcs) = (msgs.clone(), cm.clone(), dm.clone(), dcm.clone());
+        fn flip(list: &mut [Vec<u8>], k: usize) -> Option<(usize, usize)> {
+            let n = list.len();
+            let i = (0..n).map(|j| (j + k) % n.max(1)).find(|&i| !list[i].is_empty())?;
+            let pos = k % list[i].len();
+            list[i][pos] ^= 0x40;
+            Some((i, pos))
+        }
+        for round in 0..2usize {
+            let k = round * 3 + c.seed as usize;
+            if bsig.verify_blind_sign(pk, hdr, Some(&ms), Some(&cs), Some(&bf)).is_ok() {
+                if let Some((i, pos)) = flip(&mut ms, k) {
+                    let acc = bsig.verify_blind_sign(pk, hdr, Some(&ms), Some(&cs), Some(&bf)).is_ok();
+                    ms[i][pos] ^= 0x40;
+                    cx.expect_reject("verify_blind_sign", "in-place-edit:signer-message", || acc, || format!("signer message {} octet {} changed in the caller's list after an accepted call", i, pos))?;
+                }
+                let _ = bsig.verify_blind_sign(pk, hdr, Some(&ms), Some(&cs), Some(&bf));
+                if let Some((i, pos)) = flip(&mut cs, k) {
+                    let acc = bsig.verify_blind_sign(pk, hdr, Some(&ms), Some(&cs), Some(&bf)).is_ok();
+                    cs[i][pos] ^= 0x40;
+                    cx.expect_reject("verify_blind_sign", "in-place-edit:committed-message", || acc, || format!("committed message {} octet {} changed in the caller's list after an accepted call", i, pos))?;
+                }
+            }
+            if proof.blind_proof_verify(pk, hdr, phd, Some(l), Some(&ds), Some(&dcs), Some(&di), Some(&dci)).is_ok() {
+                if let Some((i, pos)) = flip(&mut ds, k) {
+                    let acc = proof.blind_proof_verify(pk, hdr, phd, Some(l), Some(&ds), Some(&dcs), Some(&di), Some(&dci)).is_ok();
+                    ds[i][pos] ^= 0x40;
+                    cx.expect_reject("blind_proof_verify", "in-place-edit:disclosed-signer-message", || acc, || format!("disclosed signer message #{} octet {} changed in the caller's list after an accepted call", i, pos))?;
+                }
+                let _ = proof.blind_proof_verify(pk, hdr, phd, Some(l), Some(&ds), Some(&dcs), Some(&di), Some(&dci));
+                if let Some((i, pos)) = flip(&mut dcs, k) {
+                    let acc = proof.blind_proof_verify(pk, hdr, phd, Some(l), Some(&ds), Some(&dcs), Some(&di), Some(&dci)).is_ok();
+                    dcs[i][pos] ^= 0x40;
+                    cx.expect_reject("blind_proof_verify", "in-place-edit:disclosed-committed-message", || acc, || format!("disclosed committed message #{} octet {} changed in the caller's list after an accepted call", i, pos))?;
+                }
+            }
+        }
+    }
     let pv = |p: &PoKSignature<BBSplus<CS>>, ll: Option<usize>, a: &[Vec<u8>], b: &[Vec<u8>], ia: &[usize], ib: &[usize], h: Option<&[u8]>, ph2: Option<&[u8]>, k: &BBSplusPublicKey| {
         p.blind_proof_verify(k, h, ph2, ll, Some(a), Some(b), Some(ia), Some(ib)).is_ok()
     };
@@ -634,7 +675,7 @@ pub fn run(ctx: &Ctx, rep: &Report) -> Meta {
         rule: "honest blind run (L = 0..4 signer messages, M = 0..3 committed) then group 1: every single-bit flip of the commitment octets (all bits for the all-bit-flips runs, 64 sampled otherwise), \
                point/proof of different runs, proof for other messages, other suite, whole-scalar removal / duplication / insertion / truncation / extension at every position -> blind_sign must return Err; \
                group 2: single edits of committed messages, signer messages, boundary moves, blinding factor (other, None, one bit), header, pk, suite -> verify_blind_sign Err; \
-               group 3: single edits of disclosed data of either kind, index moves, list shapes (surplus signer / committed message, surplus index, a never-signed entry under a repeated index before or after the genuine pair), L-1 / L+1 / None / L+M+1, header, ph, header or ph := another component of the statement (the other of the two, the public key octets, the first signer / committed message), pk, proof bit flips, plain verifier, other suite -> blind_proof_verify Err; \
+               edits made in place in the caller's lists between two calls of verify_blind_sign / blind_proof_verify (same addresses and lengths, other octets); group 3: single edits of disclosed data of either kind, index moves, list shapes (surplus signer / committed message, surplus index, a never-signed entry under a repeated index before or after the genuine pair), L-1 / L+1 / None / L+M+1, header, ph, header or ph := another component of the statement (the other of the two, the public key octets, the first signer / committed message), pk, proof bit flips, plain verifier, other suite -> blind_proof_verify Err; \
                size sweep over every M in 4..=40 (quick) / 4..=130 (thorough) and 63..65, the sweep cases under contention, the point at infinity as commitment with made-up or honest response scalars, a commitment point shifted by the order-3 point (0, 2) with a proof ground until its challenge is a multiple of 3, the just-accepted octets replayed to the other suite, a refused commitment presented again; a panic counts as not accepted here and is reported under C08; non-trivial = honest run with M >= 1 and all three groups executed"
             .into(),
         assumptions: vec!["accidental acceptance would need a hash collision or a discrete-log relation between generators".into()],
